@@ -313,6 +313,11 @@ def syn_class(run, call, fill, compute, nodata, request=None, fill_into=0, reset
         ns["reset"] = None
     if alter == 2:
         def alter_sequence_(self, seq):
+            # like Cache.alter_sequence: proposes a sequence with this element hoisted to the front (idempotent)
+            import lena.core
+            els = list(seq)
+            if els and els[0] is not self and any(e is self for e in els):
+                return lena.core.Sequence(*([self] + [e for e in els if e is not self]))
             return seq
         ns["alter_sequence"] = alter_sequence_
     elif alter == 1:
@@ -698,6 +703,12 @@ def reference(els, flow, term, share=None):
         el, err = _construct(lambda: build(s))
         if err:
             return {"skip": "element constructor raised"}
+        if s["k"] == "runalt":
+            # "the name of the method run can be customized": the stated transformation of Run(obj, run="alt") is
+            # obj.alt - taken from the object itself, not through the adapter under test
+            inner = syn_alt_class(s["hasrun"], s["alt"])()
+            el = type("Shim", (object,), {})()
+            el.run = inner.alt
         objs.append(el)
     if share:
         objs[share[1]] = objs[share[0]]
@@ -783,11 +794,21 @@ def run_impl(case):
         return {"whole": whole, "nested": nested, "ref": ref,
                 "facts": [{k2: v for k2, v in f.items() if k2 != "flags"} for f in facts]}
     if op == "splits":
-        seq, err = _construct(lambda: lena.core.Sequence(
-            lena.core.Split([tuple(build(s) for s in b) for b in case["branches"]], bufsize=case["bufsize"])))
-        if err:
-            return err
-        return observe(lambda: seq.run(make_flow(case["flow"], case.get("term"))))
+        def form(bare):
+            def mk():
+                # (all elements are built first, as in the tuple form, so that constructor exceptions come in the
+                # same order); a branch given as a Sequence object goes through the loop of meta.alter_sequence,
+                # a tuple does not
+                ells = [[build(s) for s in b] for b in case["branches"]]
+                brs = [lena.core.Sequence(*els) if bare else tuple(els) for els in ells]
+                return lena.core.Sequence(lena.core.Split(brs, bufsize=case["bufsize"]))
+            seq, err = _construct(mk)
+            if err:
+                return err
+            return observe(lambda: seq.run(make_flow(case["flow"], case.get("term"))))
+        res = form(False)
+        res = dict(res, bare=form(True))
+        return res
     if op == "source_rerun":
         args, k = [case["first"]] + case["els"], case["k"]
         src, err = _construct(lambda: lena.core.Source(*[build(s) for s in args]))
@@ -1031,9 +1052,10 @@ def compare(case, res, replies):
             return f"{case['what']}: impl {res} vs model {m}"
         return None
     if op == "splits":
+        obs = {k: v for k, v in res.items() if k != "bare"}
         for nm, m in (("splitS", replies[0]), ("splitH", replies[1])):
-            if _differs(_canon_reply(m), res):
-                return f"Split.run: impl {res} vs model {nm} {_canon_reply(m)}"
+            if _differs(_canon_reply(m), obs):
+                return f"Split.run: impl {obs} vs model {nm} {_canon_reply(m)}"
         return None
     if op == "rerun":
         m = replies[0]
@@ -1129,7 +1151,17 @@ def oracle(case, res):
                         + f"; {what}")
         return None
     if op == "splits":
-        return None          # Split's schedule is the subject of C03; here the two model forms are tied to the code
+        # Split's schedule is the subject of C03 (the two model forms are tied to the code by the correspondence); the
+        # statement checked here: meta.alter_sequence / flatten keep the element order - a branch given as a Sequence
+        # object (which Split passes through alter_sequence) behaves as the tuple of the same elements
+        obs = {k: v for k, v in res.items() if k != "bare"}
+        bare = res["bare"]
+        # (the bufsize test comes after the conversion of the branches, so the constructor exception is the same)
+        if obs != bare:
+            return (f"Split([Sequence(*els)..]) gives {bare} but Split([tuple(els)..]) gives {obs}: alter_sequence / flatten "
+                    f"must keep the elements and their order; branches {case['branches']} bufsize {case['bufsize']} "
+                    f"flow {case['flow']} term {case.get('term')}")
+        return None
     if op == "source0":
         if res != {"e": "LenaTypeError", "phase": "init"}:
             return f"Source() without arguments must raise LenaTypeError at construction, got {res}"
